@@ -7,7 +7,7 @@ variable {n : Nat}
 
 /-- the thread owning `v` cannot move: nothing pending, and either inside `Notifier::wait` with the flag clear or terminated -/
 def Blocked (s : St n) (v : Fin n) : Prop :=
-  s.out v = [] ∧ ((isWaitPc (s.pc v) = true ∧ s.flag v = false) ∨ s.pc v = .done ∨ s.pc v = .edone)
+  s.out v = [] ∧ ((isWaitPc (s.pc v) = true ∧ s.flag v = false) ∨ s.pc v = .done ∨ s.pc v = .edone ∨ s.pc v = .gone)
 
 theorem sumCh_pos (s : St n) (p : Fin n) (f : Fin n → Nat) (h : 0 < sumCh s p f) : ∃ c, isChild s p c = true ∧ 0 < f c := by
   apply Classical.byContradiction
@@ -26,13 +26,14 @@ theorem sumCh_pos (s : St n) (p : Fin n) (f : Fin n → Nat) (h : 0 < sumCh s p 
 
 /-- a blocked helper has an empty queue (while the engine thread is not quitting) -/
 theorem blocked_helper_queue {r : Fin n} {s : St n} (h1 : G1 r s) (h2 : G2 r s) (h5 : G5 r s) (hq : quitPc (s.pc r) = false)
+    (hng : ∀ v, s.alive v = true → s.pc v ≠ .gone)
     {c : Fin n} (hc : s.alive c = true) (hcr : c ≠ r) (hb : Blocked s c) : s.q c = [] ∧ s.pc c = .wait := by
   obtain ⟨_, hb⟩ := hb
   have hk : isEnginePc (s.pc c) = false := by
     cases hh : isEnginePc (s.pc c)
     · rfl
     · exact absurd ((h1.pcKind c hc).1 hh) hcr
-  rcases hb with ⟨hw, hf⟩ | hd | hd
+  rcases hb with ⟨hw, hf⟩ | hd | hd | hd
   · have hpw : s.pc c = .wait := by
       cases hp : s.pc c <;> simp [hp, isWaitPc] at hw <;> simp [hp, isEnginePc] at hk <;> rfl
     exact ⟨h2.nq c hc (by rw [hpw]; rfl) hf, hpw⟩
@@ -40,9 +41,11 @@ theorem blocked_helper_queue {r : Fin n} {s : St n} (h1 : G1 r s) (h2 : G2 r s) 
     have := h2.qphase c hc (Or.inr (Or.inr (by rw [this]; decide)))
     rw [hq] at this; cases this
   · rw [hd] at hk; cases hk
+  · exact absurd hd (hng c hc)
 
 /-- a helper with outstanding child acks cannot be blocked together with its whole subtree -/
 theorem no_stuck_round {r : Fin n} {s : St n} (h1 : G1 r s) (h2 : G2 r s) (h5 : G5 r s) (hq : quitPc (s.pc r) = false)
+    (hng : ∀ v, s.alive v = true → s.pc v ≠ .gone)
     (hall : ∀ v, s.alive v = true → Blocked s v) :
     ∀ k p, sumAll s.depth - s.depth p = k → s.alive p = true → 0 < s.childWait p → s.out p = [] → s.q p = [] → False := by
   intro k
@@ -54,7 +57,7 @@ theorem no_stuck_round {r : Fin n} {s : St n} (h1 : G1 r s) (h2 : G2 r s) (h5 : 
     have hca : s.alive c = true := ((isChild_iff s p c).1 hc).1
     have hcr : c ≠ r := h1.child_ne_root hc
     have hbc := hall c hca
-    obtain ⟨hqc, hpcc⟩ := blocked_helper_queue h1 h2 h5 hq hca hcr hbc
+    obtain ⟨hqc, hpcc⟩ := blocked_helper_queue h1 h2 h5 hq hng hca hcr hbc
     have hoc : s.out c = [] := hbc.1
     unfold debt at hd
     rw [hqc, hop, hqp, hoc] at hd
@@ -82,8 +85,9 @@ theorem collect_not_stuck {r : Fin n} {s : St n} (hr : Reach r s) (hall : ∀ v,
   have hir := h5.ecw hpc
   have hb := hall r hra
   have hfl : s.flag r = false := by
-    rcases hb.2 with ⟨_, hf⟩ | hd | hd
+    rcases hb.2 with ⟨_, hf⟩ | hd | hd | hd
     · exact hf
+    · rw [hpc] at hd; cases hd
     · rw [hpc] at hd; cases hd
     · rw [hpc] at hd; cases hd
   have hqr : s.q r = [] := h2.nq r hra (by rw [hpc]; rfl) hfl
@@ -93,7 +97,12 @@ theorem collect_not_stuck {r : Fin n} {s : St n} (hr : Reach r s) (hall : ∀ v,
     · have := h2.ns r hra hh; rw [hpc] at this; cases this
   have hcw : 0 < s.childWait r := by
     simp [inRound, hsw] at hir; exact hir
-  exact no_stuck_round h1 h2 h5 (by rw [hpc]; rfl) hall _ r rfl hra hcw hb.1 hqr
+  have hng : ∀ v, s.alive v = true → s.pc v ≠ .gone := by
+    intro v hv hg
+    have := (reach_G7 hr).gn v hv hg
+    have hact := (reach_G3 hr).s1 (by rw [hpc]; rfl)
+    simp [Reg.active, this.1, this.2.1] at hact
+  exact no_stuck_round h1 h2 h5 (by rw [hpc]; rfl) hng hall _ r rfl hra hcw hb.1 hqr
 
 /-- events performed by the thread that owns communicator `v` (the engine thread for `v = r`) -/
 def Own (r v : Fin n) : Ev n → Prop
@@ -104,6 +113,7 @@ def Own (r v : Fin n) : Ev n → Prop
   | .ackSelf w => w = v
   | .searchResult w => w = v
   | .searchLeave w _ => w = v
+  | .tend w => w = v
   | .eRdPre _ => v = r
   | .eRd _ _ => v = r
   | .eOpts _ => v = r
@@ -149,7 +159,8 @@ theorem thread_enabled {r : Fin n} {s : St n} (h1 : G1 r s) (h5 : G5 r s) (v : F
       simp only [step, stepAckSelf, va, hout, hpc]
       cases s.selfWait v <;> simp
     | done => exact absurd ⟨hout, Or.inr (Or.inl hpc)⟩ hnb
-    | edone => exact absurd ⟨hout, Or.inr (Or.inr hpc)⟩ hnb
+    | edone => exact absurd ⟨hout, Or.inr (Or.inr (Or.inl hpc))⟩ hnb
+    | gone => exact absurd ⟨hout, Or.inr (Or.inr (Or.inr hpc))⟩ hnb
     | ewait => exact ⟨.waitRet v, rfl, by simp [step, stepWaitRet, va, hout, hpc, isWaitPc, hwait (by rw [hpc]; rfl)]⟩
     | ecwait => exact ⟨.waitRet v, rfl, by simp [step, stepWaitRet, va, hout, hpc, isWaitPc, hwait (by rw [hpc]; rfl)]⟩
     | eqwait => exact ⟨.waitRet v, rfl, by simp [step, stepWaitRet, va, hout, hpc, isWaitPc, hwait (by rw [hpc]; rfl)]⟩
